@@ -306,16 +306,22 @@ func (f *fields) delAt(i int) bool {
 	// elements after i moved down by one, keep the index stored in their
 	// context (used for Path, FlattenedKeys and error messages) in sync
 	for j := i; j < len(f.a); j++ {
-		field := fmt.Sprintf("%d", j)
-		if sub, ok := f.a[j].(cfgSub); ok {
-			sub.c.ctx.field = field
-		} else {
-			ctx := f.a[j].Context()
-			ctx.field = field
-			f.a[j].SetContext(ctx)
-		}
+		renumber(f.a[j], j)
 	}
 	return true
+}
+
+// renumber stores the list position idx in the context of the list element v
+// after the element has moved.
+func renumber(v value, idx int) {
+	field := fmt.Sprintf("%d", idx)
+	if sub, ok := v.(cfgSub); ok {
+		sub.c.ctx.field = field
+		return
+	}
+	ctx := v.Context()
+	ctx.field = field
+	v.SetContext(ctx)
 }
 
 func (f *fields) set(name string, v value) {
